@@ -445,6 +445,11 @@ func (self *VM) Wait() (coreNum uint, i *value.VmInterrupt) {
 			select {
 			case i := <-core.SignalHandle:
 				if i == nil {
+					self.Cores.Lock.RUnlock()
+
+					// Remove the finished core while holding the write lock: another core may have
+					// spawned a new core in the meantime, which must not be dropped from the list.
+					self.Cores.Lock.Lock()
 					newCores := make([]Core, 0)
 
 					for _, coreIter := range self.Cores.Cores {
@@ -455,9 +460,6 @@ func (self *VM) Wait() (coreNum uint, i *value.VmInterrupt) {
 						newCores = append(newCores, coreIter)
 					}
 
-					self.Cores.Lock.RUnlock()
-
-					self.Cores.Lock.Lock()
 					self.Cores.Cores = newCores
 					self.Cores.Lock.Unlock()
 
